@@ -48,12 +48,20 @@ where
     }
 }
 
+// True for every character that `char::to_lowercase` maps to something other
+// than itself. This includes title case letters such as `U+01C5` or `U+1FCC`,
+// which are cased but do not have the `Uppercase` property.
+fn has_lowercase_mapping(c: char) -> bool {
+    let mut lower = c.to_lowercase();
+    lower.next() != Some(c) || lower.next().is_some()
+}
+
 pub fn case_mapping_rule<'a, T>(s: T) -> Result<Cow<'a, str>, Error>
 where
     T: Into<Cow<'a, str>>,
 {
     let s = s.into();
-    match s.find(char::is_uppercase) {
+    match s.find(has_lowercase_mapping) {
         None => Ok(s),
         Some(pos) => {
             let mut res = String::from(&s[..pos]);
